@@ -151,8 +151,8 @@ func init() {
 		k2 := k
 		k2.onlyMsgs = nil
 		k2.ftype = -1
-		return []CaseSet{genRandomStreams(r, "redefinitions-few-types", n, k, "000"), genRandomStreams(r, "redefinitions-any-type", n/2, k2, "000"), genUndefinedLocal(r, 400)},
-			"random interleavings of definitions and data over all 16 local types with redefinitions switching message, field list, sizes and byte order; compressed headers sharing slots 0-3; data records for undefined local types", false
+		return []CaseSet{genRandomStreams(r, "redefinitions-few-types", n, k, "000"), genRandomStreams(r, "redefinitions-any-type", n/2, k2, "000"), genRedefinitions(r, n/2), genUndefinedLocal(r, 400)},
+			"random interleavings of definitions and data over all 16 local types with redefinitions switching message, field list, sizes and byte order; chains of redefinitions of one local type differing from the previous definition in exactly one respect (byte order only, one size, one base type, the message, developer fields, field order, nothing); compressed headers sharing slots 0-3; data records for undefined local types", false
 	}
 	propPost["C13"] = postNoPanic
 
